@@ -3,10 +3,13 @@
 //   P <hex string>  -> ok <value> | err
 //   F <int64>       -> ok <hex string> | err      (api formatter)
 //   G <int64>       -> ok <hex string> | err      (masswallet formatter)
+//   D <v1,v2,...>   -> ok <hex>,<hex>,... | err   (the API layer: DecodeRawTransaction of a transaction whose outputs carry
+//                                                  these values; every output's "value" field, or the refusal of the call)
 package main
 
 import (
 	"bufio"
+	"context"
 	"encoding/hex"
 	"flag"
 	"fmt"
@@ -16,6 +19,8 @@ import (
 	"strings"
 
 	"github.com/massnetorg/mass-core/consensus"
+	"github.com/massnetorg/mass-core/wire"
+	pb "massnet.org/mass-wallet/api/proto"
 	"massnet.org/mass-wallet/api"
 	"massnet.org/mass-wallet/masswallet"
 	"verifharness/internal/rng"
@@ -64,6 +69,50 @@ func format(m int64) {
 	}
 }
 
+// decode runs the API's DecodeRawTransaction on a transaction with one standard output per value. The call needs no
+// wallet and no chain: it deserialises the hex and formats every output.
+func decode(vals []int64) {
+	r := "err"
+	func() {
+		defer func() {
+			if e := recover(); e != nil {
+				r = "panic"
+			}
+		}()
+		tx := wire.NewMsgTx()
+		tx.AddTxIn(wire.NewTxIn(&wire.OutPoint{Index: 1}, nil))
+		pk := append([]byte{0, 32}, make([]byte, 32)...)
+		for i, v := range vals {
+			sc := append([]byte(nil), pk...)
+			sc[2] = byte(i + 1)
+			tx.AddTxOut(wire.NewTxOut(v, sc))
+		}
+		raw, err := tx.Bytes(wire.Packet)
+		if err != nil {
+			r = "harness:" + err.Error()
+			return
+		}
+		resp, err := (&api.APIServer{}).DecodeRawTransaction(context.Background(), &pb.DecodeRawTransactionRequest{Hex: hex.EncodeToString(raw)})
+		if err != nil {
+			return
+		}
+		if len(resp.Vout) != len(vals) {
+			r = fmt.Sprintf("outputs:%d", len(resp.Vout))
+			return
+		}
+		parts := make([]string, len(vals))
+		for i, o := range resp.Vout {
+			parts[i] = hex.EncodeToString([]byte(o.Value))
+		}
+		r = "ok " + strings.Join(parts, ",")
+	}()
+	ss := make([]string, len(vals))
+	for i, v := range vals {
+		ss[i] = fmt.Sprint(v)
+	}
+	fmt.Fprintf(out, "D\t%s\t%s\n", strings.Join(ss, ","), r)
+}
+
 func enumStrings(alpha string, maxLen int, f func(string)) {
 	var rec func(prefix []byte, l int)
 	rec = func(prefix []byte, l int) {
@@ -99,6 +148,14 @@ func main() {
 		if strings.HasPrefix(*replay, "P:") {
 			b, _ := hex.DecodeString((*replay)[2:])
 			parse(string(b))
+		} else if strings.HasPrefix(*replay, "D:") {
+			var vals []int64
+			for _, x := range strings.Split((*replay)[2:], ",") {
+				var m int64
+				fmt.Sscanf(x, "%d", &m)
+				vals = append(vals, m)
+			}
+			decode(vals)
 		} else {
 			var m int64
 			fmt.Sscanf((*replay)[2:], "%d", &m)
@@ -229,6 +286,38 @@ func main() {
 			m = (maxAmt/per + 1 + int64(r.Intn(1000))) * per
 		}
 		format(m)
+	}
+	// --- the API layer: the amounts of every output of a decoded transaction (the range test is per output: a total kept
+	// beside it must not replace it, and an out-of-range value must refuse the call wherever it stands — seed C15e)
+	bound := []int64{0, 1, per, maxAmt - 1, maxAmt, maxAmt + 1, -1, -5, -per, -maxAmt, math.MinInt64, math.MaxInt64, 2 * maxAmt, 10, 99999999}
+	for _, a := range bound {
+		decode([]int64{a})
+		for _, b := range bound {
+			decode([]int64{a, b})
+		}
+	}
+	for _, t := range [][]int64{{maxAmt, -1, 1}, {10, -5}, {maxAmt, 1}, {maxAmt, maxAmt}, {1, 2, -3}, {per, -per, per}, {maxAmt, 1, -1}, {5, math.MinInt64, math.MaxInt64}} {
+		decode(t)
+	}
+	for i := 0; i < n/10; i++ {
+		k := 1 + r.Intn(4)
+		vals := make([]int64, k)
+		for j := range vals {
+			switch q := r.Intn(10); {
+			case q < 5:
+				vals[j] = int64(r.U64() % uint64(maxAmt+1))
+			case q < 7:
+				vals[j] = bound[r.Intn(len(bound))]
+			case q < 8:
+				vals[j] = -int64(r.U64() % uint64(maxAmt+1))
+			case q < 9:
+				vals[j] = int64(r.Intn(1000)) * per
+			default:
+				vals[j] = int64(r.U64())
+			}
+		}
+		dist["decode"]++
+		decode(vals)
 	}
 	fmt.Fprintf(os.Stderr, "dist %v\n", dist)
 }
